@@ -318,7 +318,9 @@ def oracle_c19(h):
                     res.append(("client-got-foreign-response", "call %d of %r for %s %s was answered with response t%d which was never delivered for that user and URL" % (k, op["user"], op["method"], op["url"], t), _base(h, row)))
         elif kind == "afetch" and obs["status"] == 200:
             want = int(op["req"][1:]) if op["req"].startswith("k") else None
-            if obs.get("matches") != want:
+            if want in calls and calls[want]["obs"].get("backend") not in (None, op["backend"]):
+                res.append(("fetched-foreign-request", "backend %r's agent fetched the request routed to %r" % (op["backend"], calls[want]["obs"].get("backend")), _base(h, row)))
+            elif obs.get("matches") != want:
                 res.append(("fetched-bytes-differ", "fetch of %s returned %s" % (op["req"], obs.get("mismatch") or ("the request of call %s" % obs.get("matches"))), _base(h, row)))
             elif want in calls and obs.get("user_hdr") != calls[want]["op"]["user"]:
                 res.append(("fetched-user-differs", "fetch of %s reports user %r" % (op["req"], obs.get("user_hdr")), _base(h, row)))
@@ -327,8 +329,11 @@ def oracle_c19(h):
             k = int(op["req"][1:]) if op["req"].startswith("k") else None
             if st == -1:
                 res.append(("hang:agent-response:" + "+".join(sorted(op.get("faults") or [])), "POST /agent/response did not return within 10 s with failing store calls %s" % (op.get("faults"),), _base(h, row)))
-            if k is not None and st != 401:
-                posted[k].append(op["tag"])
+            stored_b = (calls[k]["obs"].get("backend") if k in calls else None)
+            if k is not None and st != 401 and op["backend"] == stored_b:
+                posted[k].append(op["tag"])   # a post by the agent of the backend the request was routed to
+            elif k is not None and st not in (401, 404, 400) and stored_b is not None:
+                res.append(("foreign-agent-post-accepted", "backend %r's agent posted a response under the ID of a request routed to %r and was answered %s" % (op["backend"], stored_b, st), _base(h, row)))
             if st == 200 and k is not None:
                 completed[k] = row["i"]
                 if "resp_inlined" in obs:
